@@ -310,6 +310,13 @@ func genB(tier string) []proto.RTItem {
 			items = append(items, proto.RTItem{Scn: r, Class: fmt.Sprintf("wire/%s/%s", pr.p, name)})
 		}
 	}
+	// the requested counts, including "none of this kind", through both entry points: exactly that many runs and samples
+	for _, http := range []bool{false, true} {
+		for _, c := range [][2]int{{0, 2}, {1, 0}, {3, 1}, {0, 0}, {1, 1}} {
+			r := proto.RTScn{Hostname: "203.0.113.77", Protocol: "udp", MinTTL: 1, MaxTTL: 4, DelayMs: 10, TimeoutMs: 100, Queries: c[0], E2e: c[1], Dest: 3, IPIDBase: 1500, EchoBase: 150, PublicIP: "fail", HTTP: http}
+			items = append(items, proto.RTItem{Scn: r, Class: fmt.Sprintf("wire/counts/%s/runs=%d,e2e=%d", map[bool]string{false: "RunTraceroute", true: "http"}[http], c[0], c[1])})
+		}
+	}
 	return items
 }
 
